@@ -153,7 +153,45 @@ theorem C13_simple_union_end_sticky (hA : Lawful A VA WA) (s : SimpleUnion.State
     implRun (SimpleUnion.ds A) s prog = specRun ⟨[], none⟩ prog :=
   (C13_end_sticky _ _ _ (SimpleUnion.lawful hA) prog s hV hlegal).1
 
+/-- score path independence of RequiredOptionalScorer (SumCombiner): with an empty cache (every
+move empties it) the score at the current document `d` is `score_req(d) + [d ∈ opt] score_opt(d)`,
+a function of `d` alone, for every state the two children were brought to by whatever calls -/
+theorem C13_reqopt_score_path_independent (hB : Lawful B VB WB) (fA fB : Nat → Nat)
+    (hfA : ∀ {r}, (A.score r).1 = fA (A.doc r)) (hfB : ∀ {o}, (B.score o).1 = fB (B.doc o))
+    (s : ReqOpt.State σ τ) (lo : List Nat) (hVO : VB s.opt lo) (hc : s.cache = none)
+    (hsum : s.sum = true) (hd : A.doc s.req < TERMINATED) :
+    (ReqOpt.score A B s).1 = fA (A.doc s.req) + (if A.doc s.req ∈ lo then fB (A.doc s.req) else 0) :=
+  ReqOpt.score_value hB hfA hfB hVO hc hsum hd
+
 end combinators
+
+/-! ### Disjunction (minimum-should-match heap) — refinement statement
+
+FULL STATEMENT (open; the model `Model/DocSet/Disjunction.lean` is tied to
+`tantivy::query::disjunction::Disjunction` by the correspondence run, its `Lawful` proof is not
+done):
+
+  theorem C13_disjunction_lawful (hA : Lawful A VA WA) (k : Nat) (hk : 2 ≤ k) :
+      Lawful (Disj.ds A) (Disj.V VA k) (defaultW (Disj.V VA k))
+  -- where `Disj.V VA k s l` : the scorers in the heap are valid for lists `ls`, the scorers that
+  -- matched `currentDoc` have been advanced past it, and
+  -- `l = currentDoc :: (documents > currentDoc occurring in at least k of the ls)`
+
+Only `doc`/`advance` are overridden, so by `C13_default_lawful` the statement reduces to
+`Core Disj.doc (Disj.advance A) (defaultSeek …) (Disj.V VA k)`. Checked instances (tests of the
+model on concrete inputs, not a proof): -/
+
+theorem C13_disjunction_refines_instance :
+    implRun (Disj.ds Vec.ds)
+        (Disj.new Vec.ds true 2 [Vec.init [1, 5, 9] 2, Vec.init [5, 7, 9] 3, Vec.init [9, 11] 1])
+        [.doc, .advance, .seekDanger 10, .seekDanger TERMINATED]
+      = specRun ⟨[5, 9], none⟩ [.doc, .advance, .seekDanger 10, .seekDanger TERMINATED]
+    ∧ implRun (Disj.ds Vec.ds)
+        (Disj.new Vec.ds true 2 [Vec.init [1, 5, 9] 2, Vec.init [5, 7, 9] 3, Vec.init [9, 11] 1])
+        [.seek 6, .fillBuffer, .doc]
+      = specRun ⟨[5, 9], none⟩ [.seek 6, .fillBuffer, .doc] := by
+  decide +kernel
+
 
 /-! ## deviations of the real code, mirrored by the model (each reproduced by the harness
 against the real code and recorded in KNOWN_FINDINGS.txt)
